@@ -172,7 +172,10 @@ func (n *fNotifier) Notify(ctx context.Context, alerts ...*alert.Alert) (bool, e
 		at.Tick = t.Sub(e.epoch)
 	}
 	for _, a := range alerts {
-		o := fAlertObs{Name: string(a.Labels["alertname"]), Firing: !a.ResolvedAt(now), StartsAt: a.StartsAt.Sub(e.epoch)}
+		// The status is read the way every real notifier and the template data read it: from the converted alert
+		// (alert.Alerts hides an end time that has not passed), not from the pipeline's internal representation.
+		shown := alert.Alerts(a)[0]
+		o := fAlertObs{Name: string(a.Labels["alertname"]), Firing: !shown.ResolvedAt(now), StartsAt: a.StartsAt.Sub(e.epoch)}
 		if !a.EndsAt.IsZero() {
 			o.EndsAt = a.EndsAt.Sub(e.epoch)
 		}
